@@ -5,13 +5,91 @@ use std::io::{BufRead, Write};
 use serde_json::{json, Value};
 
 mod util;
+mod c01;
+mod c02;
+mod c03;
+mod c04;
+mod c05;
+mod c06;
+mod c07;
+mod c08;
+mod c09;
+mod c10;
+mod c11;
+mod c12;
 mod c13;
+mod c14;
+mod c15;
+mod c16;
+mod c17;
+mod c18;
+mod c19;
+mod c20;
+mod c21;
+mod c22;
+mod c23;
+mod c24;
+mod c25;
+mod c26;
+mod c27;
+mod c28;
+mod c29;
+mod c30;
+mod c31;
+mod c32;
+mod c33;
+mod c34;
+mod c35;
+mod c36;
+mod c37;
+mod c38;
+mod c39;
+mod c40;
 
 type CaseFn = fn(&Value) -> Value;
 
 fn dispatch(name: &str) -> Option<CaseFn> {
     Some(match name {
+        "c01" => c01::run,
+        "c02" => c02::run,
+        "c03" => c03::run,
+        "c04" => c04::run,
+        "c05" => c05::run,
+        "c06" => c06::run,
+        "c07" => c07::run,
+        "c08" => c08::run,
+        "c09" => c09::run,
+        "c10" => c10::run,
+        "c11" => c11::run,
+        "c12" => c12::run,
         "c13" => c13::run,
+        "c14" => c14::run,
+        "c15" => c15::run,
+        "c16" => c16::run,
+        "c17" => c17::run,
+        "c18" => c18::run,
+        "c19" => c19::run,
+        "c20" => c20::run,
+        "c21" => c21::run,
+        "c22" => c22::run,
+        "c23" => c23::run,
+        "c24" => c24::run,
+        "c25" => c25::run,
+        "c26" => c26::run,
+        "c27" => c27::run,
+        "c28" => c28::run,
+        "c29" => c29::run,
+        "c30" => c30::run,
+        "c31" => c31::run,
+        "c32" => c32::run,
+        "c33" => c33::run,
+        "c34" => c34::run,
+        "c35" => c35::run,
+        "c36" => c36::run,
+        "c37" => c37::run,
+        "c38" => c38::run,
+        "c39" => c39::run,
+        "c40" => c40::run,
         _ => return None,
     })
 }
